@@ -70,7 +70,7 @@ class UserProblem(Problem):
             super().__init__(vlb, vub, cons_lb=clb, cons_ub=cub)
         else:
             super().__init__(vlb, vub)
-        self.jac_const = not any(F.hasQ) and not F.ccub.any()
+        self.jac_const = not any(F.hasQ) and not F.ccub.any() and not F.cpcub.any()
         self.hess_const = (self.jac_const and not F.cub.any() and not F.quart.any()
                            and F.exp is None and F.logbar is None and not F.rosen and not F.entropy)
 
